@@ -562,9 +562,11 @@ impl<'a> Emit<'a> for Terminator {
                 for (_, target) in arms {
                     em.debug_assert_edge_parity(*target);
                 }
-                // register the jump table
+                // register the jump table; of several arms for one constructor the first
+                // one is taken, as the interpreter does, so the later ones are inserted first
                 let sorted_arms: BTreeMap<_, _> = arms
                     .iter()
+                    .rev()
                     .map(|(sa::Tag { idx, name }, prog_id)| (idx, (name, prog_id)))
                     .collect();
                 let table = JumpTable {
